@@ -100,6 +100,12 @@ def errors_of(ctx, f):
     return out
 
 
+def on_every_path(f, blk):
+    """block `blk` lies on every path from entry to a normal return"""
+    rets = [b for b in f.normal_blocks() if f.term(b)["k"] == "return"]
+    return bool(rets) and all(f.dominates(blk, r) for r in rets)
+
+
 def run(ctx):
     core = ctx.core("on")
     for chain, opts in CHAINS.items():
@@ -209,7 +215,7 @@ def run(ctx):
         ctx.ob("C10.G.word-rules-over-all-variants", f.key, "word_variants = data.iter().filter_map(|v| v.word.as_ref())", okw and len(cl_) == 1,
                "the `word` rules must see every variant that carries the annotation: source %s, selecting closures %d" % ([ctx.expr(f, t_["args"][0])[:120] for _, t_ in fms], len(cl_)))
         base = ctx.find_calls(f, "^" + re.escape(vb % "core::Core") + "$")
-        ctx.ob("C10.P.body-rules-chain", f.key, "base.validate_body(errors)", len(base) == 1, "the single-flatten rule must run for FromMeta receivers too")
+        ctx.ob("C10.P.body-rules-chain", f.key, "base.validate_body(errors)", len(base) == 1 and on_every_path(f, base[0][0]), "the single-flatten rule must run for FromMeta receivers too, on every path")
     f = ctx.fn(vb % "outer_from::OuterFrom")
     if f:
         pushes = [(blk, ctx.expr(f, t["args"][1]), ctx.pc_strs(f, blk)) for blk, t in ctx.find_calls(f, r"Accumulator::push$")]
@@ -218,12 +224,12 @@ def run(ctx):
         for blk, e, pc in pushes:
             ctx.ob("C10.G.error-spanned", f.key, "attrs", e.startswith("darling_core::error::Error::with_span(") and "attrs as Some).0.ident" in e, e[:160])
         base = ctx.find_calls(f, "^" + re.escape(vb % "core::Core") + "$")
-        ctx.ob("C10.P.body-rules-chain", f.key, "container.validate_body(errors)", len(base) == 1, "chain")
+        ctx.ob("C10.P.body-rules-chain", f.key, "container.validate_body(errors)", len(base) == 1 and on_every_path(f, base[0][0]), "the container's body rules (single flatten field, …) must run on every path, whatever the forward_attrs/attrs checks decide")
     for chain in ("from_derive::FdiOptions", "from_variant::FromVariantOptions", "from_attributes::FromAttributesOptions", "from_field::FromFieldOptions", "from_type_param::FromTypeParamOptions"):
         f = ctx.fn(vb % chain, required=False)
         if f:
             base = ctx.find_calls(f, "^" + re.escape(vb % "outer_from::OuterFrom") + "$")
-            ctx.ob("C10.P.body-rules-chain", f.key, "base.validate_body(errors)", len(base) == 1, "element-level options must run OuterFrom's body rules")
+            ctx.ob("C10.P.body-rules-chain", f.key, "base.validate_body(errors)", len(base) == 1 and on_every_path(f, base[0][0]), "element-level options must run OuterFrom's body rules on every path")
     # the trait default of validate_body is a no-op: every options type must override it (else the body rules never run)
     for chain in ("core::Core", "outer_from::OuterFrom", "from_meta::FromMetaOptions", "from_derive::FdiOptions", "from_variant::FromVariantOptions",
                   "from_attributes::FromAttributesOptions", "from_field::FromFieldOptions", "from_type_param::FromTypeParamOptions"):
